@@ -112,7 +112,12 @@ var injectable = map[string]func() error{
 }
 
 func runHTTP(in httpIn) (out httpOut) {
-	fake := NewFake()
+	out, _ = runHTTPFake(in)
+	return out
+}
+
+func runHTTPFake(in httpIn) (out httpOut, fake *Fake) {
+	fake = NewFake()
 	fake.MissingLedger = in.MissingLedger
 	fake.Outdated = in.Outdated
 	for m, name := range in.Inject {
@@ -208,7 +213,7 @@ func runHTTP(in httpIn) (out httpOut) {
 	if out.Writes == nil {
 		out.Writes = []string{}
 	}
-	return out
+	return out, fake
 }
 
 // ---- route templates ---------------------------------------------------------------
